@@ -572,8 +572,10 @@ def one(ctx, script, seed, prop, component="engine", crash_p=0.25, fault_p=0.1, 
 
 
 def run(ctx, prop, n_quick=500, n_thorough=10000, crash_p=0.25, fault_p=0.1, corpus=()):
-    for script, seed in corpus:
-        one(ctx, script, seed, prop, component="engine.corpus", crash_p=crash_p, fault_p=fault_p)
+    for entry in corpus:
+        script, seed = entry[0], entry[1]
+        one(ctx, script, seed, prop, component="engine.corpus", crash_p=crash_p, fault_p=fault_p,
+            events=entry[2] if len(entry) > 2 else None)
     for i in range(ctx.scale(n_quick, n_thorough)):
         script = E.gen_script(ctx.rng, focus=prop if i % 2 else None)
         one(ctx, script, ctx.rng.randrange(1 << 30), prop, crash_p=crash_p, fault_p=fault_p)
